@@ -360,8 +360,59 @@ static void do_spawn()
   free(argv);
 }
 
+// spawn2 <code1> <nin1> <nout1> <code2> <nout2> <nerr2>: two Process objects alive at the same time.  The first child gets
+// its input and has its stdin closed; then the second child is opened with all three streams (descriptor numbers freed by
+// the first are taken again); then the first is drained and joined, then the second.  Each child's streams and exit code
+// must be its own (one Process must not touch descriptors that belong to another).
+static void do_spawn2()
+{
+  int code1 = (int)tok_int(); long nin1 = tok_int(), nout1 = tok_int();
+  int code2 = (int)tok_int(); long nout2 = tok_int(), nerr2 = tok_int();
+  char d1[128], d2[128];
+  snprintf(d1, sizeof(d1), "c%d,i%ld,o%ld,e0", code1, nin1, nout1);
+  snprintf(d2, sizeof(d2), "c%d,i0,o%ld,e%ld", code2, nout2, nerr2);
+  char* a1[] = { g_self, (char*)"--echo", g_rep, d1, 0 };
+  char* a2[] = { g_self, (char*)"--echo", g_rep, d2, 0 };
+  String exe(g_self, String::length(g_self));
+  Map<String, String> env;
+  Process first, second;
+  uint s1 = Process::stdinStream | Process::stdoutStream, s2 = Process::stdinStream | Process::stdoutStream | Process::stderrStream;
+  bool st1 = first.open(exe, 4, a1, s1, env), st2 = false;
+  long sent = 0, go1 = 0, ge1 = 0, go2 = 0, ge2 = 0; int oko1 = 1, oke1 = 1, oko2 = 1, oke2 = 1, rd1 = 1, rd2 = 1;
+  uint32 xc1 = 999, xc2 = 999; bool jr1 = false, jr2 = false;
+  if(st1)
+  {
+    static unsigned char buf[8192];
+    while(sent < nin1)
+    {
+      long k = nin1 - sent < (long)sizeof(buf) ? nin1 - sent : (long)sizeof(buf);
+      for(long i = 0; i < k; ++i) buf[i] = pat(sent + i);
+      ssize w = first.write(buf, (usize)k);
+      if(w <= 0) { if(w < 0 && errno == EINTR) continue; break; }
+      sent += w;
+    }
+    first.close(Process::stdinStream);
+    st2 = second.open(exe, 4, a2, s2, env);
+    if(drain(first, Process::stdoutStream, &go1, &oko1, &ge1, &oke1) != 0) rd1 = 0;
+    jr1 = first.join(xc1);
+    if(st2)
+    {
+      second.close(Process::stdinStream);
+      if(drain(second, Process::stdoutStream | Process::stderrStream, &go2, &oko2, &ge2, &oke2) != 0) rd2 = 0;
+      jr2 = second.join(xc2);
+    }
+  }
+  j_begin("spawn2");
+  j_int("code1", code1); j_int("nin1", nin1); j_int("nout1", nout1); j_int("code2", code2); j_int("nout2", nout2); j_int("nerr2", nerr2);
+  j_bool("st1", st1); j_bool("st2", st2); j_int("sent", sent);
+  j_int("go1", go1); j_bool("oko1", oko1 && rd1); j_bool("jr1", jr1); j_int("xc1", xc1);
+  j_int("go2", go2); j_bool("oko2", oko2 && rd2); j_int("ge2", ge2); j_bool("oke2", oke2); j_bool("jr2", jr2); j_int("xc2", xc2);
+  j_end();
+}
+
 void drv_apply(const char* op)
 {
+  if(!strcmp(op, "spawn2")) { do_spawn2(); return; }
   if(!strcmp(op, "args")) do_args();
   else if(!strcmp(op, "cmd")) do_cmd();
   else if(!strcmp(op, "spawn")) do_spawn();
